@@ -26,10 +26,11 @@ MAX_SAMPLES = 6
 
 
 def jsonable(o):
+    """anything -> something json.dump accepts (a verdict must never be lost because a counterexample holds an odd object)"""
     try:
         json.dumps(o)
         return o
-    except (TypeError, ValueError):
+    except (TypeError, ValueError, RecursionError):
         pass
     if isinstance(o, dict):
         return {str(k): jsonable(v) for k, v in o.items()}
@@ -182,13 +183,13 @@ class Report:
             path = os.path.join(rdir, f"{self.pid}-{os.environ.get('VERIF_REPLAY_TAG', '')}{i}.json")
             with open(path, "w") as f:
                 json.dump(
-                    {"property": self.pid, "tier": self.tier, "seed": self.seed, "python_optimize": bool(sys.flags.optimize), **rec},
+                    jsonable({"property": self.pid, "tier": self.tier, "seed": self.seed, "python_optimize": bool(sys.flags.optimize), **rec}),
                     f,
                     indent=1,
                 )
             print(f"  violation sig={rec['sig']} count={rec['count']} {rec['what']}", flush=True)
             if rec["cases"]:
-                print(f"    first case: {json.dumps(rec['cases'][0])[:600]}", flush=True)
+                print(f"    first case: {json.dumps(jsonable(rec['cases'][0]))[:600]}", flush=True)
             print(f"VIOLATION property={self.pid} replay={path}", flush=True)
         self._write_evidence(viol_new, viol_known)
         if viol_new:
@@ -265,7 +266,7 @@ class Report:
         path = os.path.join(edir, f"{self.pid}.json")
         tmp = path + ".tmp"
         with open(tmp, "w") as f:
-            json.dump(doc, f, indent=1)
+            json.dump(jsonable(doc), f, indent=1)
             f.write("\n")
         os.replace(tmp, path)
         self._validate(path, doc)
